@@ -128,6 +128,10 @@ func init() {
 			sig := f.Signature()
 			// the kind and the graph shape are part of a violation's identity: shrinking stays within them
 			site := " [kind=" + f.Kind + " shape=" + f.Shape + "]"
+			if f.Shape == "same-path-tail-under-two-ancestors" {
+				// which ancestor the two files share depends on where the root sits: the layout is part of the site
+				site = " [kind=" + f.Kind + " shape=" + f.Shape + " layout=" + f.Layout + "]"
+			}
 			var res LoadResult
 			r.Exec(order)
 			if !r.Guard(x, "Load", map[string]any{"forest": f.Describe()}, func() { res = LoadForest(f, true, nil) }) {
